@@ -1663,3 +1663,7 @@ mod test {
         assert_eq!(Some(&server_filter), client.bloom_filter.full_filter());
     }
 }
+
+#[cfg(feature = "pendulum_project_ntpd_rs_verif")]
+#[path = "/verif/hooks/ntp-proto/source.rs"]
+pub mod verif_hooks;
